@@ -328,21 +328,22 @@ Section FileRefine.
 
   (* second step on a state s1 in which the single-colour file exists *)
   Definition link_step (s1 : fs) (p : path) (c : Z) : fs :=
-    if fs_exists s1 p && fs_samefile s1 (scp c) p then s1
-    else match link with
-         | LHard => match fs_get s1 (scp c) with Some n => fs_put s1 p n | None => s1 end
-         | _ => fs_put s1 p (NSym (scp c))
-         end.
+    match link with
+    | LHard => if fs_exists s1 p && fs_samefile s1 (scp c) p then s1
+               else match fs_get s1 (scp c) with Some n => fs_put s1 p n | None => s1 end
+    | _ => fs_put s1 p (NSym (scp c))
+    end.
 
   Lemma fstore_mono_steps : forall s p b c, fstore_mono ext link s p b c = link_step (ensure_sc s b c) p c.
-  Proof. reflexivity. Qed.
+  Proof. intros. unfold fstore_mono, link_step, ensure_sc. destruct link; reflexivity. Qed.
 
   Lemma link_step_cases : forall s1 a c i0, Inv s1 -> V a -> colour c -> link <> LNone ->
     fs_get s1 (scp c) = Some (NFile i0 (canon c)) ->
     (link_step s1 (loc a) c = s1 /\ fs_read s1 (loc a) = Some (canon c)) \/
     (forall q, fs_get (link_step s1 (loc a) c) q = if path_eqb (loc a) q then Some (mono_node i0 c) else fs_get s1 q).
   Proof.
-    intros s1 a c i0 Hi Va Hc Hl Gr. unfold link_step.
+    intros s1 a c i0 Hi Va Hc Hl Gr. unfold link_step, mono_node.
+    destruct link; [contradiction | right; intros q; apply fs_get_put |].
     destruct (fs_exists s1 (loc a) && fs_samefile s1 (scp c) (loc a)) eqn:S.
     - left. split; [reflexivity|]. apply andb_true_iff in S. destruct S as [_ S].
       unfold fs_samefile in S. rewrite (stat_file _ _ _ _ Gr) in S. unfold fs_read.
@@ -351,9 +352,7 @@ Section FileRefine.
       + apply Nat.eqb_eq in S. subst j. f_equal. symmetry. exact (inv_ino s1 Hi _ _ _ _ _ Gr G).
       + destruct (inv_sym s1 Hi a t Va G) as [c' [j [Hc' [-> E2]]]]. rewrite E2 in *.
         apply Nat.eqb_eq in S. subst j. f_equal. symmetry. exact (inv_ino s1 Hi _ _ _ _ _ Gr E2).
-    - right. intros q. unfold mono_node. destruct link; [contradiction| |].
-      + apply fs_get_put.
-      + rewrite Gr. apply fs_get_put.
+    - right. intros q. rewrite Gr. apply fs_get_put.
   Qed.
 
   Lemma link_step_ok : forall s1 m a c i0, Inv s1 -> V a -> colour c -> link <> LNone ->
